@@ -564,3 +564,6 @@ func genConst(t *rapid.T, in *Instr) {
 		in.AsPtr = rapid.Bool().Draw(t, "asptr")
 	}
 }
+
+// ZeroArgInt is a zero-argument function for instructions that fill a column.
+func ZeroArgInt() int { return 11 }
